@@ -379,6 +379,8 @@ def run_shard(spec):
                 counters["schema-rejected"] += 1
                 continue
             texts = [gen.gen_text(rng, sm, f) for f in (0, 0, 1, 2)]
+            from zcv.props import c06
+            texts = [c06.add_defines(rng, t) if rng.random() < 0.5 else t for t in texts]
             caseless = keys_caseless(ast)
         for text in texts:
             if not text.strip():
